@@ -44,7 +44,9 @@ def call_event(c):
 
 
 class Paths:
-    def __init__(self, may_raise=lambda callee: True, dataflow=False):
+    def __init__(self, may_raise=lambda callee: True, dataflow=False, max_iter=2, limit=LIMIT):
+        self.max_iter = max_iter
+        self.limit = limit
         self.may_raise = may_raise
         self.count = 0
         self.dataflow = dataflow      # also record ('assume', test ast, polarity) and ('assign', target ast, value ast) events
@@ -62,7 +64,7 @@ class Paths:
                 nxt.append(t1 + (('ret', ev[1]),))
             traces = nxt
             self.count += len(traces)
-            if self.count > LIMIT:
+            if self.count > self.limit:
                 raise TooManyPaths()
         return traces, raised
 
@@ -118,7 +120,7 @@ class Paths:
             res['raise'] += r
             res['normal'] += n                       # zero iterations
             cur = n
-            for _ in range(2):
+            for _ in range(self.max_iter):
                 if self.dataflow and isinstance(s, ast.For):
                     cur = [t + (('iterate', s.target, s.iter),) for t in cur]
                 b = self.block(s.body, cur)
